@@ -4,8 +4,8 @@ numba pipeline -- what happens to `raster.data`, `mask.data`, `transform` and `c
 `_polygonize_numpy`, and what `_polygonize_numpy` does before / after `_scan`.
 
 `polygonize()` is executed *abstractly*, once per raster dtype the wrapper accepts: every path through its
-statements is followed (an `if` whose test is a recognised dtype test of the tracked array is evaluated with
-numpy's own `issubdtype` / dtype equality; every other test forks the path and is remembered as an assumption;
+statements is followed (an `if` whose test is a recognised dtype test of the tracked array -- `np.issubdtype(x.dtype, np.<class>)`,
+`x.dtype ==/!=/in ...`, `x.dtype.kind`, `x.dtype.itemsize`, and/or/not of these -- is evaluated with numpy itself; every other test forks the path and is remembered as an assumption;
 `raise` ends a path), tracking for the four kernel arguments the chain of conversions applied to them
 (`.astype(T)`, `np.asarray(x[, dtype=T])`, `np.ascontiguousarray`, `.copy()`; anything else is `other`).  At the
 call of `_polygonize_numpy` the abstract values of the arguments are recorded:
@@ -150,6 +150,11 @@ class Abstract:
         if isinstance(t, ast.UnaryOp) and isinstance(t.op, ast.Not):
             d = self.decide(t.operand, st)
             return None if d is None else not d
+        if isinstance(t, ast.BoolOp):
+            ds = [self.decide(v, st) for v in t.values]
+            if isinstance(t.op, ast.And):
+                return False if False in ds else (True if all(d is True for d in ds) else None)
+            return True if True in ds else (False if all(d is False for d in ds) else None)
         if isinstance(t, ast.Compare) and len(t.ops) == 1 and isinstance(t.ops[0], (ast.Is, ast.IsNot)) \
                 and isinstance(t.comparators[0], ast.Constant) and t.comparators[0].value is None:
             v = self.ev(t.left, st)
@@ -191,6 +196,13 @@ class Abstract:
                 rs = [np_dtype_of(x) for x in rhs.elts]
                 if all(rs):
                     return (d in rs) == isinstance(op, ast.In)
+            if isinstance(t.left, ast.Attribute) and t.left.attr == "itemsize" and isinstance(rhs, ast.Constant) \
+                    and isinstance(rhs.value, int):
+                d = concrete(t.left.value)
+                cmp = {ast.Lt: lambda x, y: x < y, ast.LtE: lambda x, y: x <= y, ast.Gt: lambda x, y: x > y,
+                       ast.GtE: lambda x, y: x >= y, ast.Eq: lambda x, y: x == y, ast.NotEq: lambda x, y: x != y}.get(type(op))
+                if d and cmp:
+                    return cmp(np.dtype(d).itemsize, rhs.value)
             if isinstance(t.left, ast.Attribute) and t.left.attr == "kind":
                 d = concrete(t.left.value)
                 if d and isinstance(rhs, ast.Constant) and isinstance(rhs.value, str):
